@@ -396,6 +396,7 @@ func ExpandApk(ctx context.Context, source io.Reader, cacheDir string) (*APKExpa
 	gzipStreams := []string{}
 	hashes := [][]byte{}
 	maxStreamsReached := false
+	dataRead := false
 	for {
 		// Control section uses sha1.
 		var h hash.Hash = sha1.New() //nolint:gosec // this is what apk tools is using
@@ -464,6 +465,7 @@ func ExpandApk(ctx context.Context, source io.Reader, cacheDir string) (*APKExpa
 			}
 			gzipStreams = append(gzipStreams, sw.CurrentName())
 			hashes = append(hashes, h.Sum(nil))
+			dataRead = true
 			break
 		}
 	}
@@ -508,6 +510,12 @@ func ExpandApk(ctx context.Context, source io.Reader, cacheDir string) (*APKExpa
 		packageIndex = 1
 	default:
 		return nil, fmt.Errorf("invalid number of tar streams: %d", numGzipStreams)
+	}
+	// The loop is also left when the source ends. A source that ends after a signature and a control
+	// section has two streams as well, but neither was read as a data section: no per-file checksum
+	// was verified and the last hash is not a SHA-256.
+	if !dataRead {
+		return nil, fmt.Errorf("apk has no data section: the source ended after %d tar streams", numGzipStreams)
 	}
 	signed := signatureIndex >= 0
 
